@@ -173,4 +173,34 @@ def passProc (k : Nat) (input : Bytes) (cap : Nat) (full : Bool) : Nat × Nat ×
 
 def passCodec : Codec Nat := ⟨passProc⟩
 
+/-- A third codec for the harness (`z_process` in harness/h_c12.c): a toy *de*compressor with a magic, framing and an
+end mark, so that a stream can be damaged or truncated in a way the decompressor notices.  Format: the magic byte
+0xC1, then blocks `[len] [len bytes]` with `1 ≤ len ≤ 254`, then the end mark `[0]`; what follows the end mark is
+ignored.  State `k`: 0 = before the magic, 1 = a length byte is next, 2 = behind the end mark, `2 + r` = `r` bytes of
+the current block are left.  One item per call (the magic, a length byte, at most 5 bytes — half of the input when more than 64 bytes are
+offered — of block content or of trailing garbage).  Errors: a first byte other than the magic, the length byte 0xFF (damage), and the end of the
+input (`full` with nothing offered) anywhere but behind the end mark (truncation). -/
+def zProc (k : Nat) (input : Bytes) (cap : Nat) (full : Bool) : Nat × Nat × Bytes × XRes :=
+  match input with
+  | [] => (k, 0, [], if full ∧ k ≠ 2 then .error else .ok)
+  | b :: _ =>
+    if k = 0 then (if b = 0xC1 then (1, 1, [], .ok) else (0, 0, [], .error))
+    else if k = 1 then
+      (if b = 0 then (2, 1, [], .ok) else if b = 255 then (1, 0, [], .error) else (2 + b.toNat, 1, [], .ok))
+    else if k = 2 then (2, (if input.length > 64 then (input.length + 1) / 2 else if input.length > 5 then 5 else input.length), [], .ok)
+    else
+      let r := k - 2
+      let m0 := if input.length > 64 then (input.length + 1) / 2 else if input.length > 5 then 5 else input.length
+      let m := if r < m0 then r else m0
+      let n := if cap < m then cap else m
+      ((if r - n = 0 then 1 else 2 + (r - n)), n, input.take n, if n < m then .bufferFull else .ok)
+
+def zCodec : Codec Nat := ⟨zProc⟩
+
+/-- A stateless codec for the non-vacuity examples of `Sqfs.Props.C12` (not used by the harness): passes at most 512
+bytes per call, rejects input that starts with 0xFF. -/
+def chunkCodec : Codec Unit :=
+  ⟨fun _ inp cap _ => if inp.head? = some 255 then ((), 0, [], .error)
+    else ((), min (min inp.length cap) 512, inp.take (min (min inp.length cap) 512), .ok)⟩
+
 end Sqfs.IoLoops
